@@ -92,7 +92,7 @@ pub fn run(args: &[String]) -> ! {
         use crate::worlds::oauth::{Cfg as OCfg, Mutation, OAuthW, Op as OOp};
         let mut summary = Vec::new();
         for (name, legacy) in [("oauth2-client-key-es256", false), ("oauth2-client-key-rs256", true)] {
-            let cfg = OCfg { clients: vec![0], max_codes: 1, max_sets: 3, lifecycle: false, ticks: vec![0], pre_ops: vec![OOp::Authorise(0, 1), OOp::Exchange(0, Mutation::None)], legacy_crypto: legacy, key_revocation: true };
+            let cfg = OCfg { clients: vec![0], max_codes: 1, max_sets: 3, lifecycle: false, ticks: vec![0], pre_ops: vec![OOp::Authorise(0, 1), OOp::Exchange(0, Mutation::None)], legacy_crypto: legacy, key_revocation: true, cred_replacement: false, only_keys: vec![] };
             let depth = if ctx.quick() { 2 } else { 4 };
             let mut w = OAuthW::new(cfg);
             let opts = Opts { depth, procs: 2, deadline_s: if ctx.quick() { 12.0 } else { 300.0 }, log2_slots: 22, dedup: true, max_samples: 2, par_depth: 1 };
